@@ -72,7 +72,7 @@ Qed.
 Lemma P2_stopreq s o x xo s' o' xo' (b : bool) :
   P2 s o x xo -> wkeep o o' -> (W2 o' = false -> o_commit xo = false) ->
   okeep (xo <| o_stopreq := true |>) xo' -> (forall n, vis_of s' n = vis_of s n) ->
-  (W4 o' = false -> launched_pc (pc x) = true -> commit_pc (pc x) = false -> b = true) ->
+  (W3 o' = false -> launched_pc (pc x) = true -> commit_pc (pc x) = false -> b = true) ->
   P2 s' o' (x <| f_stopped := if b then true else f_stopped x |>) xo'.
 Proof.
   intros [] (Wa & Wb) Hc (O1 & O2 & O3 & O4 & O5 & O6) Hv Hb. cbn in O1, O2, O3, O4, O5, O6.
@@ -81,7 +81,7 @@ Proof.
   constructor; cbn; unfold Pok, GaveUp in *; cbn; rewrite ?Hv, ?O1, ?O2, ?O3, ?O4, ?O5, ?O6; auto.
   - intros c Hcc. destruct (p_gaveup c Hcc) as (A & _). split; [exact A|now left].
   - intros Hw _ Hp. destruct b; [reflexivity|].
-    destruct (commit_pc (pc x)) eqn:Ec; [specialize (Hnc (W4_W2 _ Hw)); discriminate|].
+    destruct (commit_pc (pc x)) eqn:Ec; [specialize (Hnc (W3_W2 _ Hw)); discriminate|].
     assert (Hl : launched_pc (pc x) = true) by (destruct (pc x); try discriminate; reflexivity).
     specialize (Hb Hw Hl eq_refl). discriminate.
 Qed.
